@@ -185,7 +185,12 @@ class LexInf(Inference):
             return True
         if min_len_f < min_len_v:
             return False
+        # tie in this layer: the least vector of the verifying worlds is smaller than the
+        # least vector of the falsifying worlds iff SOME minimum set of the verification
+        # side has a continuation that beats the continuations of EVERY minimum set of
+        # the falsification side
         for xi_v in min_mcs_v:
+            beats_all = True
             for xi_f in min_mcs_f:
                 if partition_index == 0:
                     return False
@@ -219,9 +224,12 @@ class LexInf(Inference):
                     deadline,
                 )
                 if result == False:
-                    return False
+                    beats_all = False
+                    break
+            if beats_all:
+                return True
 
-        return True
+        return False
 
 
 """
